@@ -28,6 +28,8 @@ def configs(tier):
     for nets in (["rbm_am"], ["rbm_am", "rbm_ph"]):
         for sched in (False, True):
             out.append({"part": "fit", "nets": nets, "bases": len(nets) == 2, "scheduler": sched, "data": "tensor"})
+    for kind in ("complex", "mixed"):
+        out.append({"part": "batch-gradients", "kind": kind, "via": "deepcopy"})     # a copied state (checkpoint-while-training)
     out.append({"generic": "every shape"})
     out.append({"independence": "complex"})
     out.append({"independence": "mixed"})
